@@ -115,7 +115,10 @@ def validate_records(module: str, cfg: str, rec_path, *, shards: int = 16, work:
 
 # ---------------------------------------------------------------- known findings
 def load_findings(prop: str) -> list:
-    data = json.loads((VERIF / 'known_findings.json').read_text())
+    path = VERIF / 'known_findings' / f'{prop}.json'
+    if not path.exists():
+        return []
+    data = json.loads(path.read_text())
     return [f for f in data['findings'] if f['property'] == prop and f['status'] == 'open']
 
 
@@ -185,6 +188,17 @@ def finish(prop: str, *, tier: str, seed: int, t0: float, coverage: dict, assump
     if rc == 0:
         print(f'OK property={prop} tier={tier} seed={seed} wall_s={ev["wall_s"]}')
     return rc
+
+
+def dump_edges(module: str, cfg: str, *, timeout: float = 900) -> tuple[list, TlcResult]:
+    """Run a cfg that has ACTION_CONSTRAINT Emit (PrintT(ToJson([tag |-> "EDGE", ...]))) with one
+    worker and return every transition of the bounded model exactly once."""
+    r = run_tlc(module, cfg, workers=1, timeout=timeout)
+    require_mc(r, cfg)
+    edges = [p for p in r.prints if isinstance(p, dict) and p.get('tag') == 'EDGE']
+    if len(edges) != r.generated - 1:
+        raise MachineryError(f'{cfg}: {len(edges)} edges printed for {r.generated} generated states')
+    return edges, r
 
 
 def require_mc(res: TlcResult, name: str) -> None:
